@@ -418,6 +418,16 @@ func runC05(c *ctx, r *Report) error {
 	if !c.quick {
 		perE = 200
 	}
+	// outputs of LOCAL callees (needs.<job>.outputs of a job that calls a local workflow, steps.<id>.outputs of a step that
+	// uses a local action): the project tie; AL.Props.C05Proj says the objects are strict with exactly the declared outputs
+	nP := 300
+	if !c.quick {
+		nP = 10000
+	}
+	if err := pjStandard(c, r, nP); err != nil {
+		return err
+	}
+	r.Rule += fmt.Sprintf("; %d generated caller workflows in a scratch repository with local reusable workflows and local actions (needs.<job>.outputs / steps.<id>.outputs of local callees) against AL.ProjCall / AL.ProjAction (ops lintwfp / exprwfp)", nP)
 	return exStandard(c, r, func(cs Case) (string, string) {
 		pick := func(s string) string {
 			var out []string
